@@ -376,3 +376,49 @@ class Report:
               f'evaluations={self.evaluations} distinct_nontrivial={len(self.nontrivial)} wall={wall:.1f}s '
               f'violations={len(self.violations)}')
         return 1 if self.violations else 0
+
+
+def proj_e2e(fields, route=True):
+    """Projection of an e2e answer line onto the per-request fields a property owns (plus the route)."""
+    def f(line):
+        out = []
+        for t in line.split(' '):
+            if t.startswith('R') and '=' in t:
+                name, val = t.split('=', 1)
+                parts = val.split(';')
+                keep = [parts[0]] if route else []
+                for p in parts[1:]:
+                    k = p.split('=', 1)[0]
+                    if k in fields:
+                        keep.append(p)
+                out.append(name + '=' + ';'.join(keep))
+            elif t.startswith(('fail=', 'tok=SERIALIZE', 'h2err=')):
+                out.append(t)
+        return ' '.join(out)
+    return f
+
+
+def reconcile_any(i, m):
+    """A model field `k=any:v1,v2,...` is a SET of admissible values: if the implementation's value for the
+    same field of the same request is one of them, the prediction is narrowed to it."""
+    if 'any:' not in m:
+        return i, m
+    it, mt = i.split(' '), m.split(' ')
+    imap = {t.split('=', 1)[0]: t for t in it if '=' in t}
+    out = []
+    for t in mt:
+        if t.startswith('R') and '=' in t and 'any:' in t:
+            name, val = t.split('=', 1)
+            ifields = dict(p.split('=', 1) for p in imap.get(name, '=').split('=', 1)[1].split(';') if '=' in p)
+            parts = []
+            for p in val.split(';'):
+                if '=' in p and p.split('=', 1)[1].startswith('any:'):
+                    k, v = p.split('=', 1)
+                    cands = v[4:].split(',')
+                    parts.append(k + '=' + (ifields[k] if ifields.get(k) in cands else cands[0]))
+                else:
+                    parts.append(p)
+            out.append(name + '=' + ';'.join(parts))
+        else:
+            out.append(t)
+    return i, ' '.join(out)
